@@ -20,14 +20,26 @@ import (
 func TestMain(m *testing.M) { ev.Main(m) }
 
 type c15Prog struct {
-	World   sim.Prog `json:"world"`
-	Replica int      `json:"replica"`
-	Upper   string   `json:"upper"`   // none | lte | lt | lte-unknown | lt-unknown
-	UpperIx []int    `json:"upperIx"` // indices into the replica's entries (mod)
-	Lower   string   `json:"lower"`   // none | gte | gt
-	LowerIx int      `json:"lowerIx"` // index into the expected range (mod)
-	Amount  int      `json:"amount"`  // -1: no amount; else candidate selector
-	Merge   bool     `json:"merge"`   // the chosen replica first merges every other replica (forked log)
+	World   sim.Prog   `json:"world"`
+	Replica int        `json:"replica"`
+	Upper   string     `json:"upper"`          // none | lte | lt | lte-unknown | lt-unknown
+	UpperIx []int      `json:"upperIx"`        // indices into the replica's entries (mod)
+	Lower   string     `json:"lower"`          // none | gte | gt
+	LowerIx int        `json:"lowerIx"`        // index into the expected range (mod)
+	Amount  int        `json:"amount"`         // -1: no amount; else candidate selector
+	Merge   bool       `json:"merge"`          // the chosen replica first merges every other replica (forked log)
+	More    []c15Query `json:"more,omitempty"` // further queries on the SAME log object, each after a generated step (nothing, an append, a merge, a failing query, the same query again)
+}
+
+// c15Query is one set of iterator options (same encoding as the fields of c15Prog) and what happens before it.
+type c15Query struct {
+	Between string `json:"between"` // none | append | join | badquery | values
+	Arg     int    `json:"arg"`
+	Upper   string `json:"upper"`
+	UpperIx []int  `json:"upperIx"`
+	Lower   string `json:"lower"`
+	LowerIx int    `json:"lowerIx"`
+	Amount  int    `json:"amount"`
 }
 
 func genC15(t *rapid.T) c15Prog {
@@ -41,6 +53,17 @@ func genC15(t *rapid.T) c15Prog {
 	p.LowerIx = rapid.IntRange(0, 1<<16).Draw(t, "lowerIx")
 	p.Amount = rapid.OneOf(rapid.Just(-1), rapid.IntRange(0, 1<<16), rapid.IntRange(0, 1<<16)).Draw(t, "amount")
 	p.Merge = rapid.IntRange(0, 3).Draw(t, "merge") > 0
+	for i, n := 0, rapid.SampledFrom([]int{0, 0, 1, 2, 3}).Draw(t, "more"); i < n; i++ {
+		p.More = append(p.More, c15Query{
+			Between: rapid.SampledFrom([]string{"none", "append", "append", "join", "badquery", "values"}).Draw(t, "between"),
+			Arg:     rapid.IntRange(0, 1<<16).Draw(t, "barg"),
+			Upper:   rapid.SampledFrom([]string{"none", "none", "lte", "lte", "lte", "lt", "lt", "lte-unknown", "lt-unknown"}).Draw(t, "upper"),
+			UpperIx: rapid.SliceOfN(rapid.IntRange(0, 1<<16), 1, 4).Draw(t, "upperIx"),
+			Lower:   rapid.SampledFrom([]string{"none", "none", "gte", "gt"}).Draw(t, "lower"),
+			LowerIx: rapid.IntRange(0, 1<<16).Draw(t, "lowerIx"),
+			Amount:  rapid.OneOf(rapid.Just(-1), rapid.IntRange(0, 1<<16), rapid.IntRange(0, 1<<16)).Draw(t, "amount"),
+		})
+	}
 	return p
 }
 
@@ -84,6 +107,35 @@ func runC15(tb ev.TB, p c15Prog) ev.Result {
 			}
 		}
 	}
+	nt, cl := runQuery(tb, w, r, c15Query{Upper: p.Upper, UpperIx: p.UpperIx, Lower: p.Lower, LowerIx: p.LowerIx, Amount: p.Amount})
+	// further queries on the same log object: an iterator leaves nothing behind, whatever it was asked and however it
+	// ended, and sees whatever the log has become since
+	for qi, q := range p.More {
+		ri := p.Replica % len(w.Reps)
+		switch q.Between {
+		case "append":
+			sim.MustOK(tb, w.Exec(tb, -1, sim.Op{Kind: "append", A: ri, Payload: fmt.Sprintf("m%d", qi), PC: sim.PointerCounts[q.Arg%len(sim.PointerCounts)]}, false))
+		case "join":
+			sim.MustOK(tb, w.Exec(tb, -1, sim.Op{Kind: "join", A: ri, B: q.Arg % len(w.Reps)}, false))
+		case "badquery":
+			bad := make(chan iface.IPFSLogEntry, len(r.Model)+2)
+			n := q.Arg % 3
+			if err := r.Log.Iterator(&ipfslog.IteratorOptions{LTE: []cid.Cid{unknownCid(q.Arg)}, Amount: &n}, bad); err == nil {
+				tb.Fatalf("iterator with an unknown upper bound returned no error")
+			}
+		case "values":
+			_ = r.Log.Values()
+		}
+		nt2, cl2 := runQuery(tb, w, r, q)
+		nt = nt || nt2
+		cl = append(cl, "further-query-after-"+q.Between)
+		_ = cl2
+	}
+	return ev.Result{NonTrivial: nt, Classes: cl}
+}
+
+// runQuery runs one iterator query on replica r and checks its outcome against the registry.
+func runQuery(tb ev.TB, w *sim.World, r *sim.Replica, p c15Query) (bool, []string) {
 	l := r.Log
 	all := r.Model.Sorted()
 	opts := &ipfslog.IteratorOptions{}
@@ -191,7 +243,7 @@ func runC15(tb ev.TB, p c15Prog) ev.Result {
 		if err == nil {
 			tb.Fatalf("iterator with unknown upper bound (%s, amount=%d) returned no error", upper, amount)
 		}
-		return ev.Result{NonTrivial: false, Classes: cl}
+		return false, cl
 	}
 	if err != nil {
 		tb.Fatalf("iterator %s/%s amount=%d returned error %v", upper, lower, amount, err)
@@ -258,7 +310,7 @@ loop:
 		}
 	}
 	nt := fork && ((upper == "lte" && len(world.SetOf(start)) >= 2) || (amount >= 0 && amount >= len(rangeD)))
-	return ev.Result{NonTrivial: nt, Classes: cl}
+	return nt, cl
 }
 
 func TestC15(t *testing.T) {
